@@ -5,7 +5,8 @@ MANIFEST = dict(
     text="Per-operation contracts (representation invariant + whole-view postcondition + frame/ownership) on the real container "
          "functions, enforced by CBMC/DFCC. dvector/uivector/ivector operations (incl. RemoveAt, with libc memmove by an assumed element-wise contract) are proved for every size "
          "<= 2^20 with function and loop contracts (no unwinding); the matrix/tensor/dvectorlist/strvector operations (nested pointers) are bounded "
-         "stand-ins over enumerated shapes and histories with symbolic contents. Any operation history is covered by induction over these contracts, which is why the "
+         "stand-ins over enumerated shapes and histories with symbolic contents. The sort operations: the two comparators are decided loop-free over their full domain (every pair of size_t values / non-NaN doubles, no overflow), "
+         "SortUIVector / DVectorSort / DVectorMedian return the ascending permutation / the middle element(s) for 1..4 elements with qsort by contract. Any operation history is covered by induction over these contracts, which is why the "
          "level is 'other' rather than 'proof': part of the obligations are bounded.",
     note="CBMC models of malloc/realloc/free; allocation failure aborts; libc memmove by assumed contract in the unbounded RemoveAt proofs and by an own byte-loop model in the bounded cross-checks (CBMC's built-in model is wrong for overlapping symbolic "
          "lengths); strdup by contract; stdio stubbed; qsort by assumed contract; ghost-index generalisation; bounded jobs list their shape bound in evidence.",
